@@ -59,7 +59,9 @@ Docs ==
      QDoc(<< Fld(1, "a", <<>>), Fld(2, "el", <<>>), Fld(3, "eln", <<>>), Fld(4, "e", <<>>),
              Fld(5, "uo", << Fld(6, "__typename", <<>>), Inl(7, "TA", << Fld(8, "p", <<>>) >>) >>) >>),
      \* 8: Int leaves (nullable, non-null, under an object) fed with every Go integer representation
-     QDoc(<< Fld(1, "a", <<>>), Fld(2, "nn", <<>>), Fld(3, "o", << Fld(4, "w", <<>>), Fld(5, "x", <<>>) >>) >>)
+     QDoc(<< Fld(1, "a", <<>>), Fld(2, "nn", <<>>), Fld(3, "o", << Fld(4, "w", <<>>), Fld(5, "x", <<>>) >>) >>),
+     \* 9: Float, Boolean, ID and String leaves fed with every Go representation of a value of the type
+     QDoc(<< Fld(1, "fl", <<>>), Fld(2, "bo", <<>>), Fld(3, "idf", <<>>), Fld(4, "s", <<>>), Fld(5, "fnn", <<>>) >>)
   >>
 
 Site(t, f, src, kind) == [t |-> t, f |-> f, src |-> src, kind |-> kind]
@@ -83,11 +85,17 @@ Sites ==
         Site("TB", "q", "r.it", "str") >>,
      << Site("Q", "a", "*", "int"), Site("Q", "el", "*", "enumlist"), Site("Q", "eln", "*", "enumlist"),
         Site("Q", "e", "*", "enum"), Site("Q", "uo", "*", "absU") >>,
-     << Site("Q", "a", "*", "goint"), Site("Q", "nn", "*", "goint"), Site("O", "w", "r.o", "goint") >>
+     << Site("Q", "a", "*", "goint"), Site("Q", "nn", "*", "goint"), Site("O", "w", "r.o", "goint") >>,
+     << Site("Q", "fl", "*", "goflt"), Site("Q", "bo", "*", "gobool"), Site("Q", "idf", "*", "goid"),
+        Site("Q", "s", "*", "gostr"), Site("Q", "fnn", "*", "goflt") >>
   >>
 
 K(k) == [k |-> k]
-TKinds == {"absT", "absTlist", "objT", "enumlist", "absU", "goint"}
+TKinds == {"absT", "absTlist", "objT", "enumlist", "absU", "goint", "goflt", "gobool", "goid", "gostr"}
+GoLeaf(g, v) == [k |-> "goleaf", g |-> g, val |-> v]
+IntReps == {"int", "i8", "i16", "i32", "i64", "u8", "u16", "u32", "u64", "uint", "pint", "pi8", "pi16", "pi32", "pi64",
+            "pu8", "pu16", "pu32", "pu64", "puint"}
+StrReps == { GoLeaf("string", StrV("sv")), GoLeaf("pstring", StrV("sv")), GoLeaf("nilpstring", NullV) }
 GoInt(g, big) == [k |-> "goint", g |-> g, big |-> big]
 TAlpha(kind) ==
   CASE kind = "absT" -> { K("nil"), K("err"), [k |-> "val", rt |-> "TB"], [k |-> "val", rt |-> "O"], [k |-> "val", rt |-> "-"], K("wrong") }
@@ -97,6 +105,13 @@ TAlpha(kind) ==
     [] kind = "goint" -> { GoInt(g, FALSE) : g \in {"i8", "i16", "i32", "i64", "u8", "u16", "u32", "u64", "uint", "f32", "f64", "pint", "pi64", "pu32", "pf64", "nilp"} }
                          \cup { GoInt(g, TRUE) : g \in {"i64", "u32", "u64", "uint", "f32", "f64", "pi64", "pu32", "pf64"} }
     [] kind = "objT" -> { K("nil"), K("err"), [k |-> "val", rt |-> "TB"], K("typednil") }
+    [] kind = "goflt" -> { GoLeaf(g, FloatV("1.5")) : g \in {"f64", "f32", "pf64", "pf32"} }
+                         \cup { GoLeaf(g, IntV("5")) : g \in IntReps }
+                         \cup { GoLeaf(g, NullV) : g \in {"nilpf64", "nilpf32", "nilpint", "nilpu16", "nilpi64"} }
+    [] kind = "gobool" -> { GoLeaf("bool", BoolV(TRUE)), GoLeaf("bool", BoolV(FALSE)), GoLeaf("pbool", BoolV(TRUE)),
+                            GoLeaf("pbool", BoolV(FALSE)), GoLeaf("nilpbool", NullV) }
+    [] kind = "gostr" -> StrReps
+    [] kind = "goid" -> StrReps \cup { GoLeaf(g, IntV("5")) : g \in {"int", "i64", "u32"} }
 
 SiteAlpha(kind) ==
   IF kind \in TKinds THEN TAlpha(kind)
